@@ -147,10 +147,19 @@ class Program:
             trees = [m.tree for m in self.modules.values()]
             pure = norm.pure_method_names(trees)
             sigs = norm.signatures(trees)
+            # method names defined in more than one class: a call `self.m()` to such a method is never inlined (it may be overridden)
+            cnt = {}
+            for t_ in trees:
+                for c_ in ast.walk(t_):
+                    if isinstance(c_, ast.ClassDef):
+                        for f_ in c_.body:
+                            if isinstance(f_, ast.FunctionDef):
+                                cnt[f_.name] = cnt.get(f_.name, 0) + 1
+            multi = frozenset(k for k, v in cnt.items() if v > 1)
             for rel, mod in self.by_rel.items():
                 if True:
                     try:
-                        self.norm_info[rel] = norm.normalise(rel, mod.tree, self.frozen, pure, sigs)
+                        self.norm_info[rel] = norm.normalise(rel, mod.tree, self.frozen, pure, sigs, multi)
                     except RecursionError as e:  # pragma: no cover
                         raise AnalysisError("normalisation of %s failed: %s" % (rel, e))
                     if mod.pyx is not None:
@@ -358,8 +367,14 @@ def names_in(node):
     return {n.id for n in ast.walk(node) if isinstance(n, ast.Name)}
 
 
+_SINGLETONS = (ast.expr_context, ast.operator, ast.unaryop, ast.boolop, ast.cmpop)
+
+
 def attach_parents(tree):
     for parent in ast.walk(tree):
         for child in ast.iter_child_nodes(parent):
-            child._parent = parent
+            # Load() / Store() / operator nodes are interpreter-wide singletons: a parent pointer on them would leak one tree into
+            # every other tree (and into every deepcopy)
+            if not isinstance(child, _SINGLETONS):
+                child._parent = parent
     return tree
